@@ -1684,3 +1684,23 @@ package stackage
 //@ requires rdom() && (r == nil || wf(r))
 //@ ensures[C02:Stack.String] s == SR(r)
 //@ modifies Mem_Str[fresh], Cell_strings_Builder[fresh], G_calls_len, G_calls_fn, G_calls_arg
+
+// ---- C18: symbol and encapsulation settings
+
+//@ func (*stack).setSymbol
+//@ tags C18
+//@ safety C18
+//@ requires wf(r) && okslice(c, alloc)
+//@ let g := cfgOf(r)
+//@ ensures[C18:symbol] F_nodeConfig_typ[g] != 0x04 ==> F_nodeConfig_sym[g] == symCat(c, len(c))
+//@ ensures[C18:symbol.list] F_nodeConfig_typ[g] == 0x04 ==> F_nodeConfig_sym[g] == old(F_nodeConfig_sym[g])
+//@ ensures[C18:symbol.only] hdr(r) == old(hdr(r)) && F_nodeConfig_opt[g] == old(F_nodeConfig_opt[g]) && F_nodeConfig_typ[g] == old(F_nodeConfig_typ[g])
+//@ modifies F_nodeConfig_sym[cfgOf(r)], F_nodeConfig_ldr[cfgOf(r)], G_held
+//@ loop 1 invariant 0 <= i && i <= len(c)
+//@ loop 1 invariant str == symCat(c, i)
+
+//@ func (Stack).SetEncap
+//@ tags C18
+//@ safety C18
+//@ requires (r == nil || wf(r)) && okslice(x, alloc)
+//@ noframe
